@@ -42,12 +42,20 @@ std::vector<long> g_trace;		 // primitive transfer sizes
 std::vector<void*> g_refs;		 // NiRef objects seen in Sync
 std::vector<void*> g_srefs;		 // NiStringRef objects seen in Sync
 long g_maxCount = 3;
+bool g_monotoneBytes = false, g_sawZeroByte = false;
 
 void onTransfer(int mode, char* ptr, std::streamsize count) {
 	g_trace.push_back(static_cast<long>(count));
 	if (g_generate && mode == 0 && ptr) {
-		for (std::streamsize i = 0; i < count; ++i)
-			ptr[i] = static_cast<char>('0' + g_gen.below(10));
+		if (count <= 8) {
+			// an untyped scalar (element counts of the sized containers are read this way): small value
+			std::memset(ptr, 0, static_cast<size_t>(count));
+			uint32_t r = g_gen.below(16);
+			ptr[0] = static_cast<char>(r < 12 ? g_gen.below(static_cast<uint32_t>(g_maxCount) + 1) : (r < 15 ? 4 + g_gen.below(6) : 1));
+		}
+		else
+			for (std::streamsize i = 0; i < count; ++i)
+				ptr[i] = static_cast<char>('0' + g_gen.below(10));
 	}
 }
 
@@ -72,17 +80,24 @@ void onTyped(int mode, void* ptr, size_t size, int kind) {
 		else if (r < 13)
 			v = 4 + g_gen.below(12);
 		else if (r == 13)
-			v = (size == 1) ? 255 : (size == 2 ? 65535 : 0xFFFFFFFFULL); // all ones in the field
+			v = 255;
 		else if (r == 14)
-			v = (size == 1) ? 128 : (size == 2 ? 256 : 65536);
+			v = (size == 1) ? 128 : 256;
 		else
 			v = 1;
 		// very large counts make the reader allocate gigabytes: the generator stays below 2^16 for
 		// 4/8-byte integers except the all-ones pattern, which it only uses for references
-		if (size >= 4 && v > 65536 && !(v == 0xFFFFFFFFULL))
-			v = 7;
-		if (size >= 4 && v == 0xFFFFFFFFULL && r == 13)
-			v = 9; // not a reference: avoid 4G element counts
+		if (g_monotoneBytes && size == 1) {
+			// BSGeometry reads four "slot present" bytes and indexes meshes[i] by slot number: a
+			// present slot after an absent one indexes past the vector (malformed input, outside
+			// every property's quantifier; noted in DESIGN.md section 7). Keep the flags monotone.
+			if (g_sawZeroByte)
+				v = 0;
+			else if (v == 0)
+				g_sawZeroByte = true;
+			else
+				v = 1;
+		}
 		std::memset(p, 0, size);
 		std::memcpy(p, &v, std::min<size_t>(size, 8));
 	}
@@ -198,6 +213,8 @@ std::string do_blk(const Case& c) {
 	g_refs.clear();
 	g_srefs.clear();
 	g_nextIsRef = false;
+	g_monotoneBytes = c.get("type") == "BSGeometry";
+	g_sawZeroByte = false;
 	g_generate = true;
 	obj->Get(gin);
 	g_generate = false;
@@ -220,7 +237,10 @@ std::string do_blk(const Case& c) {
 	obj->GetStringRefs(sr);
 	std::set<void*> allsrefs(sr.begin(), sr.end());
 	bool refs_ok = covered(p1.refs, allrefs);
-	bool srefs_ok = covered(p1.srefs, allsrefs);
+	// below 20.1.0.3 a NiStringRef is serialised as an inline string, not as a string-table index,
+	// so there is nothing for the enumeration to keep up to date
+	bool indexed_strings = hdr.GetVersion().File() >= V20_1_0_3;
+	bool srefs_ok = !indexed_strings || covered(p1.srefs, allsrefs);
 	// child indices agree with child refs (as multisets of index values)
 	std::vector<uint32_t> ci;
 	obj->GetChildIndices(ci);
@@ -256,7 +276,7 @@ std::string do_blk(const Case& c) {
 	std::vector<NiStringRef*> sr2;
 	obj2->GetStringRefs(sr2);
 	std::set<void*> alls2(sr2.begin(), sr2.end());
-	bool rrefs_ok = covered(rrefs, all2) && covered(rsrefs, alls2);
+	bool rrefs_ok = covered(rrefs, all2) && (!indexed_strings || covered(rsrefs, alls2));
 	PutResult p2 = put_block(obj2.get(), hdr);
 
 	std::ostringstream os;
